@@ -48,4 +48,22 @@ PROPS = {
         "level_note": "Full at atomic-step granularity under sequentially consistent sync/atomic. The snapshot sets (two skiplists) are treated as atomic sets (C13 is the statement about that). NewIterator/Iterator.Close are Open/Close on the handle.",
         "assumptions": ["sync/atomic operations are sequentially consistent", "skiplist insert/delete on the snapshot sets are atomic (C13)", "a goroutine closes only handles it holds"],
     },
+    "C02": {
+        "runs": [run("mvcc", 500, 10000)],
+        "level_text": "Refinement theorem mvcc_refines_spec: for every total-preorder comparator and EVERY finite operation sequence (Put/Delete/GetNode/DeleteNode through any handle/NewSnapshot/Open/Close in any order/GC/worker steps anywhere/Scan/ItemsCount through existing writers) every output of the model equals that of a sorted-list set specification with fresh handles and frozen snapshots; the store invariant holds in every reachable state; counts agree. Proved by induction over the op list with a relation carrying the store invariant, the snapshot bookkeeping and the garbage-list bookkeeping. The model is tied to nitro.go by running generated well-formed histories on real instances (both comparators, Go-managed memory and the guard allocator) and evaluating the model on the same history in Coq: per-op results, node identities, Count(), ItemsCount and full scans must be equal.",
+        "level_note": "Full for single-goroutine histories (the property's quantifier). The skiplist appears as its quiescent level-0 content (sorted list); that abstraction is what C13/C14 are about. DeleteNode handles whose node has been freed are excluded for user-managed memory (caller misuse; see C04).",
+        "assumptions": ["operations are issued from one goroutine (C03 covers concurrent writers)", "the key comparator is a total preorder", "DeleteNode is given a node that has not been freed"],
+    },
+    "C01": {
+        "runs": [run("mvcc-iso", 300, 6000), run("stress", 12, 200, model=False)],
+        "level_text": "Theorem snapshot_isolation: in every reachable state of the model (any history of Put/Delete by any writers, creation/closing of other snapshots in any order, GC passes and collection-worker steps at any point) the view of the physical store through each open snapshot equals the item list frozen at its creation; a scan through the iterator loop with any refresh rate returns exactly that view, strictly increasing; Count() equals its length (refinement theorem). Tied to the code by re-scanning open snapshots inside and at the end of generated histories on real instances, with real collection workers running, and evaluating the same history in the Coq model.",
+        "level_note": "Full at operation granularity (every interleaving of whole operations and worker list-removals is an op list). Below it — a scan overlapping a physical unlink inside the skiplist, concurrent readers — rests on C15/C13 and is exercised by the stress oracle only.",
+        "assumptions": ["operation-granularity interleaving; finer interleavings rest on C13/C15", "the key comparator is a total preorder"],
+    },
+    "C06": {
+        "runs": [run("mvcc-gc", 400, 8000), run("snap", 800, 20000)],
+        "level_text": "Theorems: gc_precision (every reachable state: each open snapshot's view of the physical store is its frozen content, so nothing visible is ever removed), gc_complete (after any history, GC + drained workers leave a dead version only if it died in the current epoch or an open snapshot has sn <= its deadSn; nothing pending), counts; and for Closes racing from any goroutines under ALL schedules: collector_safe (lists handed over in order, once, after retirement) and collector_complete (a GC pass from any reachable quiescent state collects the whole retired run). Tied to the code by (a) histories with forced GC() and wait-for-quiescence points at which the physical level-0 content (item, bornSn, deadSn) is compared with the model, and (b) schedule replay of Open/Close/GC goroutines against the collector machine.",
+        "level_note": "Precision/completeness full at operation granularity; racing Close protocol full at atomic-step granularity. Collection is in snapshot order, so a dead version behind an older open snapshot stays (the oracle allows that band; the correspondence pins it to the model). Physical unlinking under contention inherits C13/C14. MemoryInUse is compared only through node counts and the allocator ledger (C07).",
+        "assumptions": ["at least one writer exists (collection workers are per writer)", "sync/atomic sequentially consistent", "skiplist operations on the store are atomic at this level (C13)"],
+    },
 }
